@@ -24,6 +24,7 @@ import QV.Model.Cplx
 import QV.Lemmas.CplxTensor
 import QV.Lemmas.CplxStorage
 import QV.Lemmas.CplxEinsumEq
+import QV.Lemmas.CplxHead
 import QV.Lemmas.PyFlag
 
 namespace QV.Props
@@ -1311,6 +1312,147 @@ theorem C15_einsum_ellipsis_batched {a b : Tensor ℝ} {B n p : ℕ} (ha : IsCpl
   simp [opIdx, envVal, List.lookup, e1, e2, e3]
 
 end complex
+
+/-! ### the scalar kernel at /repo HEAD (extension round, package X2)
+
+`C.invH`, `C.divH`, `C.sdivH`, `C.absH`, `C.csigmoidH` (QV.Model.CplxScalar) are `cplx.inverse`, `elementwise_division`,
+`scalar_divide`, `absolute_value`, `sigmoid` for ONE complex number, as coded since fix F17 (7038bfb).  (1) The tensor-level
+model the C15 driver executes applies exactly these functions entrywise — at EVERY entry (zero divisors included) and over
+EVERY carrier (so also at `Float`).  (2) Over ℝ each equals the textbook formula on its domain.  The gradient model of
+C03 (`Grads.cplxRotComp`, `Grads.piGrad`) calls `C.invH` / `C.csigmoidH`, so the C03 theorems are about these formulas. -/
+section headkernel
+variable {α : Type} [Add α] [Mul α] [Neg α] [Sub α] [Div α] [Zero α] [One α] [Transc α] [LT α] [DecidableLT α]
+
+/-- **inverse, entrywise = `C.invH`** (any carrier, every entry): the tensor function is the scalar function of HEAD's
+formula applied to each entry — also at entries equal to `0`. -/
+theorem C15_inverse_entry {z : Tensor α} {s : List Nat} (hz : IsCplx z s) :
+    ∃ w, inverse z = .ok w ∧ IsCplx w s ∧ ∀ idx, Valid s idx → centry w idx = C.invH (centry z idx) := by
+  obtain ⟨hss, hsw, hse⟩ := zip_planes (fun a b : α => Transc.max (Transc.abs a) (Transc.abs b)) hz
+  obtain ⟨z', hz', hz'c, hz'e⟩ := bop_planes (fun a b : α => a / b) hz hss
+  obtain ⟨zs, hzs, hzsc, hzse⟩ := C15_conj hz'c
+  obtain ⟨p, hp, hpc, hpe⟩ := C15_scalar_mult hz'c hzsc (broadcastShape_self s)
+  obtain ⟨q, hq, hqc, hqe⟩ := bop_planes (fun a b : α => a / b) hzsc (reT_shape p s)
+  obtain ⟨w, hw, hwc, hwe⟩ := bop_planes (fun a b : α => a / b) hqc hss
+  unfold inverse cscale
+  rw [real_eq hz, imag_eq hz]
+  simp only [ok_bind, pure_eq_ok, hz', hzs, hp, real_eq hpc, hq]
+  refine ⟨w, hw, hwc, fun idx hv => ?_⟩
+  rw [hwe idx hv, hqe idx hv, reT_at hpc hv, hpe idx hv, bidx_self hv, hzse idx hv, hz'e idx hv, hse idx hv]
+  rfl
+
+/-- **absolute_value, entrywise = `C.absH`** (any carrier, every entry). -/
+theorem C15_absolute_value_entry {x : Tensor α} {s : List Nat} (hx : IsCplx x s) :
+    ∃ r, absoluteValue x = .ok r ∧ r.shape = s ∧ WF r ∧ ∀ idx, Valid s idx → r.at idx = C.absH (centry x idx) := by
+  obtain ⟨hss, hsw, hse⟩ := zip_planes (hypot (α := α)) hx
+  unfold absoluteValue
+  rw [real_eq hx, imag_eq hx]
+  simp only [ok_bind, pure_eq_ok]
+  exact ⟨_, rfl, hss, hsw, fun idx hv => by rw [hse idx hv]; rfl⟩
+
+/-- **elementwise_division, entrywise = `C.divH`** (any carrier, every entry of equally shaped operands). -/
+theorem C15_elementwise_division_entry {x y : Tensor α} {s : List Nat} (hx : IsCplx x s) (hy : IsCplx y s) :
+    ∃ z, elementwiseDivision x y = .ok z ∧ IsCplx z s ∧
+      ∀ idx, Valid s idx → centry z idx = C.divH (centry x idx) (centry y idx) := by
+  obtain ⟨hss, hsw, hse⟩ := zip_planes (fun a b : α => Transc.max (Transc.abs a) (Transc.abs b)) hy
+  obtain ⟨y', hy', hy'c, hy'e⟩ := bop_planes (fun a b : α => a / b) hy hss
+  obtain ⟨ys, hys, hysc, hyse⟩ := C15_conj hy'c
+  obtain ⟨ab, hab, habs, habw, habe⟩ := C15_absolute_value_entry hy'c
+  obtain ⟨x', hx', hx'c, hx'e⟩ := bop_planes (fun a b : α => a / b) hx hss
+  obtain ⟨p, hp, hpc, hpe⟩ := C15_scalar_mult hx'c hysc (broadcastShape_self s)
+  have hsh : ¬ x.shape ≠ y.shape := by rw [hx.1, hy.1]; simp
+  unfold elementwiseDivision cscale
+  rw [if_neg hsh, real_eq hy, imag_eq hy]
+  simp only [ok_bind, pure_eq_ok, hy', hys, hab, hx', elementwiseMult, hp]
+  obtain ⟨z, hz, hzc, hze⟩ := bop_planes (fun a b : α => a / b) hpc
+    (sc := ab.map fun v => v * v) (by rw [map_shape, habs])
+  refine ⟨z, hz, hzc, fun idx hv => ?_⟩
+  rw [hze idx hv, at_map _ _ habw (idx := idx) (by rw [habs]; exact hv), habe idx hv, hpe idx hv, bidx_self hv,
+    hyse idx hv, hx'e idx hv, hy'e idx hv, hse idx hv]
+  rfl
+
+/-- **scalar_divide, entrywise = `C.sdivH`** (any carrier, same broadcasting as `scalar_mult`, every entry). -/
+theorem C15_scalar_divide_entry {x y : Tensor α} {sx sy r : List Nat} (hx : IsCplx x sx) (hy : IsCplx y sy)
+    (hb : broadcastShape sx sy = .ok r) :
+    ∃ z, scalarDivide x y = .ok z ∧ IsCplx z r ∧
+      ∀ idx, Valid r idx → centry z idx = C.sdivH (centry x (bidx sx idx)) (centry y (bidx sy idx)) := by
+  obtain ⟨iy, hiy, hiyc, hiye⟩ := C15_inverse_entry hy
+  obtain ⟨z, hz, hzc, hze⟩ := C15_scalar_mult hx hiyc hb
+  unfold scalarDivide
+  rw [hiy]
+  simp only [ok_bind]
+  refine ⟨z, hz, hzc, fun idx hv => ?_⟩
+  rw [hze idx hv, hiye _ (broadcast_valid hb hv).2]
+  rfl
+
+/-- **sigmoid, entrywise = `C.csigmoidH`** (any carrier, numpy broadcasting of the two real operands, every entry). -/
+theorem C15_sigmoid_entry {x y : Tensor α} {r : List Nat} (hb : broadcastShape x.shape y.shape = .ok r) :
+    ∃ z, Cplx.sigmoid x y = .ok z ∧ IsCplx z r ∧
+      ∀ idx, Valid r idx → centry z idx = C.csigmoidH (x.at (bidx x.shape idx)) (y.at (bidx y.shape idx)) := by
+  unfold Cplx.sigmoid
+  simp only [hb]
+  exact cat2_spec (s := r) (fun idx => sigC (x.at (bidx x.shape idx), y.at (bidx y.shape idx)))
+      rfl rfl (wf_build _ _) (wf_build _ _) (fun idx hv => by rw [at_build _ hv, at_build _ hv])
+
+end headkernel
+
+section headkernel_real
+open Complex
+
+/-- **`invH` = textbook inverse on `z ≠ 0`**: HEAD's scaled formula `conj(z/s) / Re((z/s)·conj(z/s)) / s`,
+`s = max |Re z| |Im z|`, is `conj z / |z|²`, and decodes to `z⁻¹` in ℂ. (At `z = 0` the code returns `nan` in either form.) -/
+theorem C15_invH_eq (z : C ℝ) (hz : z ≠ (0, 0)) :
+    C.invH z = C.inv z ∧ dec (C.invH z) = (dec z)⁻¹ :=
+  ⟨C.invH_eq z hz, toC_invH z ((C.ne_zero_iff z).1 hz)⟩
+
+/-- **`divH` = textbook quotient on `y ≠ 0`**: `(x/s)·conj(y/s) / hypot(y/s)²` is `x·conj y / |y|²` and decodes to `x / y`. -/
+theorem C15_divH_eq (x y : C ℝ) (hy : y ≠ (0, 0)) :
+    C.divH x y = C.div x y ∧ dec (C.divH x y) = dec x / dec y :=
+  ⟨C.divH_eq x y hy, toC_divH x y ((C.ne_zero_iff y).1 hy)⟩
+
+/-- **`sdivH` (`scalar_divide`: `x · inverse(y)`) = textbook quotient on `y ≠ 0`**, hence the two division routines of the
+library agree with each other there. -/
+theorem C15_sdivH_eq (x y : C ℝ) (hy : y ≠ (0, 0)) :
+    C.sdivH x y = C.div x y ∧ C.sdivH x y = C.divH x y ∧ dec (C.sdivH x y) = dec x / dec y :=
+  ⟨C.sdivH_eq x y hy, by rw [C.sdivH_eq x y hy, C.divH_eq x y hy], toC_sdivH x y ((C.ne_zero_iff y).1 hy)⟩
+
+/-- **`absH` = `√(Re² + Im²)` = `|z|` for every `z`** (including `0`, where hypot's scale is `0`). -/
+theorem C15_absH_eq (z : C ℝ) : C.absH z = Real.sqrt (C.normSq z) ∧ C.absH z = ‖dec z‖ :=
+  ⟨C.absH_eq z, C.absH_eq_norm z⟩
+
+/-- **`csigmoidH` = textbook `e^z / (1 + e^z)` for EVERY argument** (the branch form `1/(1+e^{-z})` for `Re z > 0`,
+`e^z/(1+e^z)` otherwise — also at the poles `z = i(2k+1)π`, which lie in the left branch), and it decodes to the complex
+logistic function wherever `1 + e^z ≠ 0`. -/
+theorem C15_csigmoidH_eq (x y : ℝ) :
+    C.csigmoidH x y = Grads.csigmoid x y ∧
+    (1 + Complex.exp (dec (x, y)) ≠ 0 →
+      dec (C.csigmoidH x y) = Complex.exp (dec (x, y)) / (1 + Complex.exp (dec (x, y)))) :=
+  ⟨C.csigmoidH_eq x y, fun h => dec_sigC _ h⟩
+
+/-- **the scaled operand of `invH` / `divH` is of order 1**: for `z ≠ 0` the components of `z / scaleH z` lie in `[-1, 1]`
+and the `|·|²` the formulas form lies in `[1, 2]`, whatever the magnitude of `z` (the textbook formula squares `z` itself:
+overflow beyond `1e154`, underflow below `1e-154`). -/
+theorem C15_invH_operand_range (z : C ℝ) (hz : z ≠ (0, 0)) :
+    0 < C.scaleH z ∧ |z.1 / C.scaleH z| ≤ 1 ∧ |z.2 / C.scaleH z| ≤ 1 ∧
+    1 ≤ C.normSq (z.1 / C.scaleH z, z.2 / C.scaleH z) ∧ C.normSq (z.1 / C.scaleH z, z.2 / C.scaleH z) ≤ 2 := by
+  have hpos := cscale_pos ((C.ne_zero_iff z).1 hz)
+  exact ⟨hpos, scaled_bounds z.1 z.2 hpos⟩
+
+-- the hypotheses are met by concrete non-trivial instances
+example : ((3, -4) : C ℝ) ≠ (0, 0) := by intro h; have := congrArg Prod.fst h; norm_num at this
+example : C.invH ((3, -4) : C ℝ) = (3 / 25, 4 / 25) := by
+  rw [(C15_invH_eq _ (by intro h; have := congrArg Prod.fst h; norm_num at this)).1]
+  simp only [C.inv, C.conj, C.normSq]; norm_num
+example : C.sdivH ((1, 2) : C ℝ) (3, -4) = (-1 / 5, 2 / 5) := by
+  rw [(C15_sdivH_eq _ _ (by intro h; have := congrArg Prod.fst h; norm_num at this)).1]
+  simp only [C.div, C.mul, C.conj, C.normSq]; norm_num
+example : C.absH ((3, -4) : C ℝ) = 5 := by
+  rw [(C15_absH_eq _).1]; simp only [C.normSq]
+  rw [show (3 : ℝ) * 3 + -4 * -4 = 5 * 5 by norm_num, Real.sqrt_mul_self (by norm_num)]
+example : C.csigmoidH (0 : ℝ) 0 = (1 / 2, 0) := by
+  rw [(C15_csigmoidH_eq 0 0).1]
+  simp [Grads.csigmoid, C.div, C.mul, C.conj, C.add, C.one, C.normSq]; norm_num
+
+end headkernel_real
 /-! ### the hypotheses are satisfiable: concrete, non-trivial instances evaluated by the model itself -/
 section examples
 
